@@ -93,6 +93,26 @@ func Eval(env *zygo.Zlisp, text string, budget int64) *Outcome {
 	return o
 }
 
+// EvalFailAt is Eval with an injected fault after the k-th VM instruction.
+func EvalFailAt(env *zygo.Zlisp, text string, budget int64, k int64) *Outcome {
+	if budget <= 0 {
+		budget = DefaultBudget
+	}
+	o := &Outcome{}
+	zygo.VerifReset(budget)
+	zygo.Verif.FailAt = k
+	o.Panic, o.Site = Protect(func() {
+		o.Val, o.Err = env.EvalString(text)
+	})
+	o.Steps = zygo.Verif.Steps
+	zygo.Verif.Budget = 0
+	zygo.Verif.FailAt = 0
+	if isBudget(o.Err) {
+		o.Budget = true
+	}
+	return o
+}
+
 // Call runs an arbitrary entry point behind the boundary with a budget.
 func Call(budget int64, f func() (zygo.Sexp, error)) *Outcome {
 	if budget <= 0 {
